@@ -242,6 +242,15 @@ void do_op(string op, string ctx) {
     if (rest) vlog("\"e\":\"Raise\",\"ctx\":\"caught\",\"ob\":" + jq(k));
     vlog("\"e\":\"DestRes\",\"ob\":" + jq(k) + ",\"ok\":" + (rest ? 0 : 1));
     break;
+  case "wld":      // wld:dest | wld:keep   load /obj/wsd by name; its create() destructs it (dest) or not (keep); then call it by name
+    "/reg"->set_hook("wsd", "create", f[1]);
+    o = find_object("/obj/wsd"); if (o) destruct(o);
+    o = 0; r = 0;
+    rest = catch(o = load_object("/obj/wsd"));
+    k = catch(r = call_other("/obj/wsd", "ping"));
+    vlog("\"e\":\"LoadNamed\",\"mode\":" + jq(f[1]) + ",\"got\":" + (o ? 1 : 0) + ",\"ran\":" + (r ? 1 : 0) + ",\"found\":" + (find_object("/obj/wsd") ? 1 : 0));
+    o = find_object("/obj/wsd"); if (o) destruct(o);
+    break;
   case "whook":   // whook:BASE:KIND:ops  (create hooks are per file)
     "/reg"->set_hook(f[1], f[2], replace_string(implode(f[3..], ":"), "|", ";"));
     break;
